@@ -393,12 +393,46 @@ fn expectations() -> (u64, Vec<(String, String, String)>) {
                                     VerificationError::OutputFfMismatch { .. } => "ff",
                                 };
                                 if !stated_mismatch.contains(&field) {
-                                    bad.push(("verify/reports-wrong-field".to_string(), format!("[{}] reported mismatch {} but the mismatching stated fields are {:?}", PROGS[p].0, field, stated_mismatch), l));
+                                    bad.push(("verify/reports-wrong-field".to_string(), format!("[{}] reported mismatch {} but the mismatching stated fields are {:?}", PROGS[p].0, field, stated_mismatch), l.clone()));
+                                }
+                                // the values the error carries: what the machine shows and what was stated
+                                let values_ok = match e {
+                                    VerificationError::StateMismatch { expected, found } => *found == st && mask & 1 != 0 && *expected == (if sv == 0 { st } else { other_states[sv - 1] }),
+                                    VerificationError::OutputFeMismatch { expected, found } => *found == fe && *expected == (match fev { 0 => fe, 1 => fe.wrapping_add(1), _ => !fe }),
+                                    VerificationError::OutputFfMismatch { expected, found } => *found == ff && *expected == (match ffv { 0 => ff, 1 => ff.wrapping_sub(1), _ => ff ^ 0x80 }),
+                                };
+                                if !values_ok {
+                                    bad.push(("verify/reports-wrong-values".to_string(), format!("[{}] the error {:?} does not carry the machine's value as `found` and the stated value as `expected` (final state {:?}, FE {}, FF {})", PROGS[p].0, e, st, fe, ff), l));
                                 }
                             }
                         }
                     }
                 }
+            }
+        }
+    }
+    // the rendered messages (what the CLI prints): found and expected must keep their roles. Wording is
+    // free; what is checked is that the three messages name the two values in the same order, and that
+    // swapping the roles of two values swaps them in the text.
+    {
+        let texts = |found: u8, expected: u8| -> [String; 2] {
+            [format!("{}", VerificationError::OutputFeMismatch { expected, found }), format!("{}", VerificationError::OutputFfMismatch { expected, found })]
+        };
+        let order = |t: &str, a: &str, b: &str| -> Option<bool> { Some(t.find(a)? < t.find(b)?) };
+        n += 1;
+        let t = texts(37, 142);
+        let o: Vec<Option<bool>> = t.iter().map(|x| order(x, "37", "142")).collect();
+        let st_text = format!("{}", VerificationError::StateMismatch { expected: State::Running, found: State::ErrorStopped });
+        let o_state = order(&st_text, "ErrorStopped", "Running");
+        if o.iter().any(|x| x.is_none()) || o_state.is_none() {
+            bad.push(("verify/message".to_string(), format!("a verification message does not name both the found and the expected value: {:?} / {:?}", t, st_text), "expect messages".to_string()));
+        } else if o[0] != o[1] || o[0] != o_state {
+            bad.push(("verify/message".to_string(), format!("the verification messages name found/expected in different orders: {:?} / {:?} (found = 37 / ErrorStopped, expected = 142 / Running)", t, st_text), "expect messages".to_string()));
+        }
+        let t2 = texts(142, 37);
+        for k in 0..2 {
+            if t[k].replace("142", "#").replace("37", "142").replace('#', "37") != t2[k] {
+                bad.push(("verify/message".to_string(), format!("swapping found and expected does not swap them in the message: {:?} vs {:?}", t[k], t2[k]), "expect messages".to_string()));
             }
         }
     }
@@ -609,6 +643,17 @@ fn invocations(dir: &std::path::Path) -> Vec<Inv> {
             v.push(inv);
         }
     }
+    // budgets far beyond anything that is ever executed (the budget is an upper limit only): programs that
+    // halt by themselves with the largest budgets the argument type admits, and around 2^16 / 2^32
+    for p in [1usize, 2, 4, 5] {
+        for n in [usize::MAX, usize::MAX - 1, (isize::MAX as usize) + 1, isize::MAX as usize, 100_000_000_000_000, 1 << 32, (1 << 32) - 1, 65_537, 65_536, 65_535] {
+            v.push(mk(format!("huge budget {} {}", PROGS[p].0, n), p, &files[p].1, n, MachineConfig::default(), vec![], vec![], vec![], None));
+            v.push(mk(format!("huge budget {} {} with schedule", PROGS[p].0, n), p, &files[p].1, n, MachineConfig::default(), vec![], vec![3, n - 1], vec![n / 2], Some((Some(ref_run(PROGS[p].1, &MachineConfig::default(), 60, &[3], &[]).0.state()), None, None))));
+        }
+    }
+    // a long run of the program that never halts: 70 000 cycles, events beyond 2^16
+    v.push(mk("long run".into(), 0, &files[0].1, 70_000, MachineConfig::default(), vec![], vec![65_540], vec![66_000, 69_999], None));
+    v.push(mk("long run isr".into(), 3, &files[3].1, 70_000, MachineConfig::default(), vec![], vec![300, 65_536, 65_537], vec![], None));
     // every budget 0..=40 on every program
     for (p, f) in &files {
         for n in 0..=40usize {
@@ -777,6 +822,10 @@ pub fn run() {
                     jobs.push((p, c, n));
                 }
             }
+            // long runs: counters beyond 2^16 (schedules relative to N as for the short budgets)
+            if c == 0 && (p == 0 || p == 3) {
+                jobs.push((p, c, 65_600));
+            }
         }
     }
     let res = mc::par_ranges(jobs.len(), jobs.len(), |rg| {
@@ -802,6 +851,11 @@ pub fn run() {
             if quick && n > 12 {
                 // the full product stays for budgets <= 12; above, every 4th reset list
                 resets = resets.into_iter().step_by(4).collect();
+            }
+            if n > 1000 {
+                // long runs: a handful of schedules with events on both sides of 2^16
+                ints = vec![vec![], vec![0, n - 1], vec![65_535, 65_536, 65_537], vec![n, 300, 65_540]];
+                resets = vec![vec![], vec![65_536], vec![n - 1, 100]];
             }
             for i in &ints {
                 for r in &resets {
@@ -875,7 +929,7 @@ pub fn run() {
             let _ = std::fs::create_dir_all(&dir);
             let mut invs = invocations(&dir);
             if quick {
-                let keep: Vec<Inv> = invs.iter().enumerate().filter(|(i, v)| v.expect.is_none() || i % 3 == 0 || v.name.contains("verify") || v.name.starts_with("--") || v.name.starts_with("board") || v.name.starts_with("literal") || v.name.starts_with("argument") || v.name.starts_with("verbose")).map(|(_, v)| v.clone()).collect();
+                let keep: Vec<Inv> = invs.iter().enumerate().filter(|(i, v)| v.expect.is_none() || i % 3 == 0 || v.name.contains("verify") || v.name.starts_with("--") || v.name.starts_with("board") || v.name.starts_with("literal") || v.name.starts_with("argument") || v.name.starts_with("verbose") || v.name.starts_with("huge") || v.name.starts_with("long")).map(|(_, v)| v.clone()).collect();
                 invs = keep;
             }
             nproc = invs.len() as u64;
